@@ -173,6 +173,14 @@ def exec (p : Player) (op : Json) (readFile : String → Option (List Char)) : J
       | some text =>
         match Save.loadState st (Json.parse text.toList) with
         | (r, st1) => p.finish (ofOut (fun _ => Json.null) r) st1
+    else if name == "loadbad" then
+      match alGet p.slots (argStr a 1) with
+      | none => (.obj [("r", .str "badop")], p)
+      | some text =>
+        let k := argStr a 2
+        let bad := text.replace ("\"" ++ k ++ "\":") ("\"" ++ k ++ "\":\"zero\",\"x-" ++ k ++ "\":")
+        match Save.loadState st (Json.parse bad.toList) with
+        | (r, st1) => p.finish (ofOut (fun _ => Json.null) r) st1
     else if name == "loadtext" then
       match Save.loadState st (Json.parse (argStr a 1).toList) with
       | (r, st1) => p.finish (ofOut (fun _ => Json.null) r) st1
